@@ -494,6 +494,23 @@ fn repl(
 }
 
 fn main() {
+    // The parser, the type checker and the translator recurse over the tree
+    // of the program. A flat chain of a few thousand operators is a tree that
+    // deep and overflows the default stack. Only the pages that are touched
+    // are ever backed by memory, so a large stack costs nothing otherwise.
+    const STACK_SIZE: usize = 1 << 30;
+    let child = std::thread::Builder::new()
+        .name("main".to_owned())
+        .stack_size(STACK_SIZE)
+        .spawn(run)
+        .expect("unable to start the main thread");
+    if child.join().is_err() {
+        // The panic message has been printed by the thread.
+        process::exit(101);
+    }
+}
+
+fn run() {
     let mut app = do_flags();
     let app_matches = app.clone().get_matches();
     // FIXME(jwall): Do we want these to be shared or not?
